@@ -99,9 +99,14 @@ func ite(c, a, b string) string {
 	return app("ite", c, a, b)
 }
 
+func isBVLit(a string) bool { return strings.HasPrefix(a, "(_ bv") }
+
 func eq(a, b string) string {
 	if a == b {
 		return "true"
+	}
+	if isBVLit(a) && isBVLit(b) {
+		return "false"
 	}
 	return app("=", a, b)
 }
